@@ -353,7 +353,11 @@ func (r *reader) initNodes(tr io.Reader) error {
 	}
 	md := make(map[uint32]*metadataEntry)
 	st := make(map[int64]map[int64]uint32)
-	if err := r.db.Batch(func(tx *bolt.Tx) (err error) {
+	// This must not be bolt's Batch: Batch calls the function again when it (or
+	// another function of the same batch) failed, but the decoder cannot be read
+	// twice. The second call would see no entries and succeed, so that the error
+	// is lost and a partially imported layer is served.
+	if err := r.db.Update(func(tx *bolt.Tx) (err error) {
 		nodes, err := getNodes(tx, r.fsID)
 		if err != nil {
 			return err
